@@ -18,7 +18,7 @@ ENV_Z = dict(ENV, ASAN_OPTIONS="malloc_fill_byte=0:max_malloc_fill_size=65536")
 
 def build_engine():
     objs = build.lib_objects("asan")
-    gen = os.path.join(build.BUILD, "gen", "apisim")
+    gen = os.path.join(build.BUILD, "gen", "apisim" + os.path.basename(build.BIN)[3:])
     os.makedirs(gen, exist_ok=True)
     env = dict(os.environ, VERIF_REPO=build.REPO)
     out = subprocess.run([sys.executable, os.path.join(HERE, "gen_table.py")], stdout=subprocess.PIPE, env=env, check=True).stdout
@@ -29,8 +29,8 @@ def build_engine():
     eo = build.compile_cached(os.path.join(HERE, "apisim.cpp"), flags)
     # twin build: uninitialised automatic variables are zero instead of a garbage pattern (see common/build.py)
     global TWIN
-    TWIN = build.link([eo] + build.lib_objects("asanz"), os.path.join(build.BUILD, "bin", "apisim_z"), ["-fsanitize=address,undefined"])
-    return build.link([eo] + objs, os.path.join(build.BUILD, "bin", "apisim"), ["-fsanitize=address,undefined"])
+    TWIN = build.link([eo] + build.lib_objects("asanz"), os.path.join(build.BIN, "apisim_z"), ["-fsanitize=address,undefined"])
+    return build.link([eo] + objs, os.path.join(build.BIN, "apisim"), ["-fsanitize=address,undefined"])
 
 
 def main(a):
